@@ -116,10 +116,11 @@ type wrapper struct {
 }
 
 type op struct {
-	kind int // 0 register, 1 unregister, 2 gather
+	kind int // 0 register, 1 unregister, 2 gather, 3 MustRegister(cs...)
 	ws   []wrapper
 	c    int
 	must bool
+	cs   []int
 }
 
 type c08Case struct {
@@ -174,6 +175,7 @@ func execute(cs c08Case) (string, map[int]int, int) {
 	}
 	kinds := map[int]int{}
 	unregTrue := 0
+	mustPanics := 0
 	opTerms := make([]string, len(cs.ops))
 	resTerms := make([]string, len(cs.ops))
 	for i, o := range cs.ops {
@@ -205,6 +207,35 @@ func execute(cs c08Case) (string, map[int]int, int) {
 				wts[j] = emit.Pair(emit.S(w.prefix), emit.L(nil))
 			}
 		}
+		if o.kind == 3 {
+			idx := make([]string, len(o.cs))
+			args := make([]prometheus.Collector, len(o.cs))
+			for j, c := range o.cs {
+				idx[j] = emit.I(c)
+				args[j] = colls[c]
+			}
+			opTerms[i] = emit.C(3, emit.L(wts), emit.L(idx))
+			var err error
+			func() {
+				defer func() {
+					if p := recover(); p != nil {
+						if e, ok := p.(error); ok {
+							err = e
+						} else {
+							err = fmt.Errorf("panic: %v", p)
+						}
+					}
+				}()
+				r.MustRegister(args...)
+			}()
+			k, a := classify(err, colls)
+			kinds[k]++
+			if k != 0 {
+				mustPanics++
+			}
+			resTerms[i] = emit.C(0, emit.I(k), emit.I(a))
+			continue
+		}
 		opTerms[i] = emit.C(o.kind, emit.L(wts), emit.I(o.c))
 		if o.kind == 0 {
 			var err error
@@ -235,6 +266,7 @@ func execute(cs c08Case) (string, map[int]int, int) {
 			resTerms[i] = emit.C(1, emit.B(b))
 		}
 	}
+	kinds[100] = mustPanics
 	return emit.Tup(emit.L(collTerms), emit.L(opTerms), emit.L(resTerms)), kinds, unregTrue
 }
 
@@ -490,20 +522,27 @@ func genCase(r *emit.Rng, malformed, heavyWrap bool) (c08Case, []string) {
 	for i := 0; i < nops; i++ {
 		var o op
 		switch x := r.Intn(10); {
-		case x < 6:
+		case x < 5:
 			o = op{kind: 0, c: r.Intn(ncoll), must: r.Chance(1, 4)}
-		case x < 9:
+		case x < 8:
 			o = op{kind: 1, c: r.Intn(ncoll)}
-		default:
+		case x < 9:
+			o = op{kind: 2}
+		default: // MustRegister of several collectors at once
+			o = op{kind: 3, ws: genWrappers(r, heavyWrap)}
+			for k := 2 + r.Intn(3); k > 0; k-- {
+				o.cs = append(o.cs, r.Intn(ncoll))
+			}
+			cs.ops = append(cs.ops, o)
 			o = op{kind: 2}
 		}
-		if o.kind != 2 {
+		if o.kind < 2 {
 			o.ws = genWrappers(r, heavyWrap)
 			// re-use the wrappers of an earlier operation on the same collector so that
 			// wrapped Unregister / repeated Register hit
 			if i > 0 && r.Chance(1, 2) {
 				for k := i - 1; k >= 0; k-- {
-					if cs.ops[k].kind != 2 && cs.ops[k].c == o.c {
+					if cs.ops[k].kind < 2 && cs.ops[k].c == o.c {
 						o.ws = cs.ops[k].ws
 						break
 					}
@@ -520,6 +559,8 @@ func addCase(w *emit.Writer, cs c08Case, tags []string) {
 	term, kinds, unregTrue := execute(cs)
 	names := map[int]string{0: "res:nil", 1: "res:AlreadyRegistered", 2: "res:invalid", 3: "res:duplicate", 4: "res:inconsistent", 5: "res:other"}
 	rej := 0
+	w.Tag("res:MustRegister-multi-panics", kinds[100])
+	delete(kinds, 100)
 	for k, n := range kinds {
 		w.Tag(names[k], n)
 		if k >= 2 {
@@ -619,6 +660,102 @@ func runC08(c *cli.Ctx) error {
 		cs.ops = []op{{kind: 0, c: first, ws: ws}, {kind: 0, c: second, ws: ws}, {kind: 2}, {kind: 0, c: 2},
 			{kind: 1, c: second, ws: ws}, {kind: 2}, {kind: 1, c: first, ws: ws}, {kind: 0, c: second, ws: ws}, {kind: 2}}
 		addCase(w, cs, []string{"perm"})
+	}
+	if err := w.Flush(); err != nil {
+		return err
+	}
+
+	// MustRegister(c1..cn) with a rejected collector that is not the last one: the trailing collectors
+	// must stay unregistered (Gather, later Register / Unregister of them)
+	w = emit.NewWriter(c.Out, "C08", "must")
+	for i := 0; i < 150*c.Scale; i++ {
+		a := genDesc(r)
+		var bad []rawDesc
+		var tag string
+		switch r.Intn(4) {
+		case 0:
+			bad, tag = []rawDesc{{invalid: true}}, "must:invalid"
+		case 1:
+			bad, tag = []rawDesc{a.clone()}, "must:already-registered"
+		case 2:
+			d := a.clone()
+			d.help += "!"
+			for k := range d.consts {
+				d.consts[k] += "x"
+			}
+			bad, tag = []rawDesc{d}, "must:inconsistent"
+		default:
+			fresh := genDesc(r)
+			fresh.fq = "dup_" + fresh.fq
+			bad, tag = []rawDesc{a.clone(), fresh}, "must:duplicate"
+		}
+		t1, t2, lead := genDesc(r), genDesc(r), genDesc(r)
+		t1.fq, t2.fq, lead.fq = "t1_"+t1.fq, "t2_"+t2.fq, "lead_"+lead.fq
+		cs := c08Case{pedantic: r.Bool(), colls: [][]rawDesc{{a}, bad, {t1}, {t2}, {lead}}}
+		ws := genWrappers(r, r.Bool())
+		var first op
+		if len(ws) > 0 && r.Bool() {
+			first = op{kind: 0, c: 0, ws: ws}
+		} else {
+			first = op{kind: 0, c: 0}
+			if tag != "must:invalid" {
+				ws = nil // the rejection must come from the collector registered without wrappers
+			}
+		}
+		var list []int
+		switch r.Intn(3) {
+		case 0:
+			list = []int{1, 2}
+		case 1:
+			list = []int{4, 1, 2, 3}
+		default:
+			list = []int{1, 2, 3}
+		}
+		cs.ops = []op{first, {kind: 3, ws: ws, cs: list}, {kind: 2}, {kind: 0, c: 2, ws: ws}, {kind: 1, c: 3, ws: ws},
+			{kind: 3, ws: ws, cs: []int{3, 4}}, {kind: 2}, {kind: 1, c: 2, ws: ws}, {kind: 2}}
+		addCase(w, cs, []string{tag, fmt.Sprintf("must:len%d", len(list))})
+	}
+	if err := w.Flush(); err != nil {
+		return err
+	}
+
+	// long names / const label values sharing a long prefix and differing only near the end
+	w = emit.NewWriter(c.Out, "C08", "long")
+	lens := []int{50, 100, 120, 125, 126, 127, 128, 129, 130, 135, 200, 250, 254, 255, 256, 257, 260, 300, 500, 511, 512, 513, 1000, 1023, 1024, 1025}
+	filler := func(n int) string {
+		b := make([]byte, n)
+		for k := range b {
+			b[k] = "abcdefghij"[k%10]
+		}
+		return string(b)
+	}
+	for i := 0; i < 120*c.Scale; i++ {
+		n := lens[r.Intn(len(lens))]
+		if c.Scale > 1 && r.Chance(1, 10) {
+			n = 1 + r.Intn(5000)
+		}
+		var da, db rawDesc
+		mode := r.Intn(4)
+		switch mode {
+		case 0: // long name, differs in the last byte
+			da = rawDesc{fq: "n" + filler(n) + "a", help: "h", consts: map[string]string{}}
+			db = rawDesc{fq: "n" + filler(n) + "b", help: "h", consts: map[string]string{}}
+		case 1: // long const value, differs in the last byte
+			da = rawDesc{fq: "m", help: "h", consts: map[string]string{"a": filler(n) + "1"}}
+			db = rawDesc{fq: "m", help: "h", consts: map[string]string{"a": filler(n) + "2"}}
+		case 2: // long first value, the second (short) value differs
+			da = rawDesc{fq: "m", help: "h", consts: map[string]string{"a": filler(n), "b": "1"}, vars: []string{"x"}}
+			db = rawDesc{fq: "m", help: "h", consts: map[string]string{"a": filler(n), "b": "2"}, vars: []string{"x"}}
+		default: // long name, short value differs
+			da = rawDesc{fq: "n" + filler(n), help: "h", consts: map[string]string{"a": "1"}}
+			db = rawDesc{fq: "n" + filler(n), help: "h", consts: map[string]string{"a": "2"}}
+		}
+		other := genDesc(r)
+		cs := c08Case{pedantic: r.Bool(), colls: [][]rawDesc{{da}, {db}, {db.clone(), other}}}
+		ws := genWrappers(r, false)
+		cs.ops = []op{{kind: 0, c: 0, ws: ws}, {kind: 1, c: 1, ws: ws}, {kind: 2}, {kind: 0, c: 1, ws: ws}, {kind: 0, c: 2, ws: ws}, {kind: 2},
+			{kind: 1, c: 0, ws: ws}, {kind: 2}, {kind: 0, c: 0, ws: ws}, {kind: 1, c: 1, ws: ws}, {kind: 2}}
+		addCase(w, cs, []string{fmt.Sprintf("long:mode%d", mode), fmt.Sprintf("long:len<=%d", (n/128+1)*128)})
 	}
 	if err := w.Flush(); err != nil {
 		return err
